@@ -21,10 +21,19 @@ SCRATCH = os.environ.get("VERIF_SCRATCH", "/tmp/verif_selftest")
 
 def main():
     muts = json.load(open(os.path.join(ROOT, "selftest", "mutations.json")))
-    sel = sys.argv[1:]
+    sel = [a for a in sys.argv[1:] if a != "--only"]
+    # VERIF_SELFTEST_NO_SEEDS=1 skips the `seed ..` entries (tools/gen_seed_muts.py has just run exactly those checks); VERIF_SELFTEST_SHARD=i/n takes every n-th entry
+    # (run the shards with different VERIF_SCRATCH directories)
+    no_seeds = bool(os.environ.get("VERIF_SELFTEST_NO_SEEDS"))
+    shard = os.environ.get("VERIF_SELFTEST_SHARD")
+    si, sn = (int(x) for x in shard.split("/")) if shard else (0, 1)
     bad = 0
-    for m in muts:
+    for k, m in enumerate(muts):
         if sel and not any(s in m["name"] for s in sel):
+            continue
+        if no_seeds and m["name"].startswith("seed "):
+            continue
+        if k % sn != si:
             continue
         if os.path.exists(SCRATCH):
             shutil.rmtree(SCRATCH)
